@@ -34,15 +34,14 @@ def hexVal (c : Char) : Option Nat :=
 
 def parseHex (s : String) : Option Bytes :=
   if s == "-" then some [] else
-  let rec go : List Char → Option Bytes
-    | [] => some []
-    | a :: b :: rest => do
-        let x ← hexVal a
-        let y ← hexVal b
-        let r ← go rest
-        pure (UInt8.ofNat (16 * x + y) :: r)
-    | _ => none
-  go s.toList
+  let rec go : List Char → Bytes → Option Bytes
+    | [], acc => some acc.reverse
+    | a :: b :: rest, acc =>
+        match hexVal a, hexVal b with
+        | some x, some y => go rest (UInt8.ofNat (16 * x + y) :: acc)
+        | _, _ => none
+    | _, _ => none
+  go s.toList []
 
 def intTy (s : String) : Option Ty :=
   match s with
@@ -163,12 +162,16 @@ partial def parseVal : List String → Option (Val × List String)
       | 'd' :: ds => do let n ← (String.ofList ds).toNat?; pure (.f64 n, rest)
       | 's' :: ds => do let bs ← parseHex (String.ofList ds); pure (.str bs, rest)
       | _ => none
-partial def parseVals : Nat → List String → Option (ValList × List String)
-  | 0, r => some (.nil, r)
-  | n + 1, r => do
-      let (v, r) ← parseVal r
-      let (vs, r) ← parseVals n r
-      pure (.cons v vs, r)
+partial def parseVals (n : Nat) (r : List String) : Option (ValList × List String) :=
+  let rec go : Nat → List String → List Val → Option (List Val × List String)
+    | 0, r, acc => some (acc, r)
+    | n + 1, r, acc =>
+        match parseVal r with
+        | some (v, r) => go n r (v :: acc)
+        | none => none
+  match go n r [] with
+  | some (acc, r) => some (acc.foldl (fun l v => ValList.cons v l) ValList.nil, r)
+  | none => none
 end
 
 def answer (line : String) : String :=
